@@ -167,14 +167,15 @@ def unit_excel_workbooks():
                 if kind == "s": return v
                 if kind == "n": return expected_number(v)
                 if kind == "b": return "1" if v else "0"
-                if kind == "d": return v.strftime("%Y-%m-%d %H:%M:%S")
-                if kind == "t": return v.strftime("%H:%M:%S")
+                if kind == "d": return (v + datetime.timedelta(microseconds=500000)).replace(microsecond=0).strftime("%Y-%m-%d %H:%M:%S")       # whole seconds, rounded to the nearest
+                if kind == "t": return (datetime.datetime.combine(datetime.date(2000, 1, 1), v) + datetime.timedelta(microseconds=500000)).strftime("%H:%M:%S")
             numbers = [12.05, 0.05, -1.003, 9.0625, 100.0625, 0, 1, -1, 7, 10, 255, 2**31, 2**53, -2**53, 0.5, -0.25, 1.5, 3.14159, 1e-7, 1.25e10, 123456789.125, 0.1, 2.675, 1e21, 5e-324, 1.5e300]
             # the producer (xlsxwriter) stores numbers with 16 significant digits ('%.16G'): random values are first rounded to what the file can hold
             if ctx.thorough: numbers += [float("%.16G" % rng.uniform(-1e6, 1e6)) for _ in range(300)] + [float("%.16G" % float(rng.randint(-2**53, 2**53))) for _ in range(300)]
-            dates = [datetime.datetime(1900, 3, 1, 0, 0, 0), datetime.datetime(1999, 12, 31, 23, 59, 59), datetime.datetime(2024, 2, 29, 12, 0, 1), datetime.datetime(9999, 12, 31, 0, 0, 0), datetime.datetime(2001, 1, 1, 0, 0, 0)]
+            dates = [datetime.datetime(1900, 3, 1, 0, 0, 0), datetime.datetime(1999, 12, 31, 23, 59, 59), datetime.datetime(2024, 2, 29, 12, 0, 1), datetime.datetime(9999, 12, 31, 0, 0, 0), datetime.datetime(2001, 1, 1, 0, 0, 0),
+                     datetime.datetime(2020, 3, 4, 12, 30, 15, 250000), datetime.datetime(2020, 3, 4, 18, 0, 0, 750000)]       # serial numbers with a sub-second part
             if ctx.thorough: dates += [datetime.datetime(1900, 3, 1) + datetime.timedelta(days=rng.randint(0, 2958000), seconds=rng.randint(0, 86399)) for _ in range(300)]
-            times = [datetime.time(0, 0, 1), datetime.time(12, 30, 0), datetime.time(23, 59, 59)] + ([datetime.time(rng.randint(0, 23), rng.randint(0, 59), rng.randint(0, 59)) for _ in range(200)] if ctx.thorough else [])
+            times = [datetime.time(0, 0, 1), datetime.time(12, 30, 0), datetime.time(23, 59, 59), datetime.time(1, 23, 45, 200000), datetime.time(6, 0, 0, 400000)] + ([datetime.time(rng.randint(0, 23), rng.randint(0, 59), rng.randint(0, 59)) for _ in range(200)] if ctx.thorough else [])
             strings = ["", "a", " a ", "ä€", "=1+1", "1.0", "x\ny", "<&>\"'"]
             cells = [("s", s) for s in strings] + [("n", n) for n in numbers] + [("b", True), ("b", False)] + [("d", d) for d in dates] + [("t", t) for t in times]
             def cases():
